@@ -111,6 +111,10 @@ type Target struct {
 	BadRestore map[string]bool
 	// AcceptScripts: SCRIPT LOAD / FUNCTION … answer success instead of "unsupported"
 	AcceptScripts bool
+	// DropAt (opt-in, C04): the connection that sends request #idx is closed by
+	// the target without a reply to it (the request is logged, not executed);
+	// every other connection lives on — a dropped connection, not a crash.
+	DropAt map[int]bool
 }
 
 func NewTarget() *Target {
@@ -771,6 +775,10 @@ func (t *Target) request(connID int, args [][]byte) (reply, bool) {
 	cmd := strings.ToLower(string(args[0]))
 	e := LogEntry{Conn: connID, DB: c.db, Args: args, Queued: c.inMulti && cmd != "exec" && cmd != "discard"}
 	t.Log = append(t.Log, e)
+	if t.DropAt[idx] {
+		t.mu.Unlock()
+		return reply{}, true
+	}
 	hook := t.Hook
 	fail := t.FailAt[idx]
 	if fail == "" && t.FailFrom >= 0 && idx >= t.FailFrom {
@@ -859,6 +867,12 @@ func readRequest(r *bufio.Reader) ([][]byte, error) {
 // Dial returns the client side of an in-memory connection served by the
 // target. Works inside a testing/synctest bubble (net.Pipe is channel based).
 func (t *Target) Dial() net.Conn {
+	cli, _ := t.DialID()
+	return cli
+}
+
+// DialID is Dial that also tells the connection id the log will carry.
+func (t *Target) DialID() (net.Conn, int) {
 	cli, srv := net.Pipe()
 	t.mu.Lock()
 	t.nextID++
@@ -866,7 +880,7 @@ func (t *Target) Dial() net.Conn {
 	t.closers = append(t.closers, srv)
 	t.mu.Unlock()
 	go t.serve(id, srv)
-	return cli
+	return cli, id
 }
 
 func (t *Target) serve(id int, c net.Conn) {
